@@ -17,13 +17,20 @@ THEOREMS = ["QExPy.C16_argmax", "QExPy.C16_walk_spec", "QExPy.C16_walk_edges",
             "QExPy.C16_cache_coherent_step", "QExPy.C16_cache_coherent", "QExPy.C16_read_spec",
             "QExPy.C16_read_after_history",
             "QExPy.C16_sim_changes_only", "QExPy.C16_new_sim_is_new", "QExPy.C16_mean_std_range",
-            "QExPy.C16_custom", "QExPy.C16_rejected_unchanged"]
+            "QExPy.C16_custom", "QExPy.C16_rejected_unchanged",
+            "QExPy.C16_display_invisible", "QExPy.C16_read_after_display",
+            "QExPy.C16_bystander_invisible"]
 RULE = ("(a) unit level: find_mode_and_uncertainty on synthetic count lists (length 100 and other "
         "lengths; mass at the first/last bins, both ends, spikes, ties, zeros) x confidences "
         "{0.01,0.5,0.68,0.9,0.95,0.999,1.0} and random ones, vs the Lean walk and the decidable "
         "least-k spec evaluated on the implementation's answer; (b) histories of 3-25 mc.* "
         "operations (sample size, reset, confidence, range by quantiles of the current samples, "
-        "strategy switches, custom pair, recalculate, global size, invalid arguments) on real derived "
+        "strategy switches, custom pair, recalculate, global size, invalid arguments; LOOKING: "
+        "mc.show_histogram with the default / another bin count, positionally or by keyword, with "
+        "and without the display-only range= window, printing the quantity; BYSTANDERS: a figure "
+        "with a fit or a function drawn, another quantity configured / simulated / displayed, a "
+        "function run under a temporary sample size -- none of which may change what the quantity "
+        "reports or the size of its next simulation) on real derived "
         "values of 9 shapes (symmetric, right/left skewed, mode in bin 0 / bin 99, partially "
         "undefined); after every operation mc.samples() is retrieved, numpy.histogram(samples, 100) "
         "recomputed, and the reported pair compared with the Lean settings machine's read "
@@ -214,6 +221,19 @@ def gen_history(rng, quick=True, min_ops=3, max_ops=25):
     for _ in range(n):
         t = rng.random()
         conf = rng.choice(CONFS) if rng.random() < 0.7 else round(rng.uniform(0.001, 1.0), 4)
+        # looking at the quantity / doing something to other objects (no effect in the model)
+        # (matplotlib makes these the expensive steps: rarer in the long histories of the thorough tier)
+        p_disp, p_by = (0.07, 0.03) if quick else (0.03, 0.01)
+        if t < p_disp:
+            ops.append(gen_display(rng))
+            continue
+        if t < p_disp + p_by:
+            ops.append(["bystander", rng.choice(BYSTANDERS)])
+            continue
+        if t < p_disp + p_by + 0.02:
+            ops.append(["print", rng.choice(["str", "repr", "format"])])
+            continue
+        t = (t - (p_disp + p_by + 0.02)) / (1 - (p_disp + p_by + 0.02))
         if t < 0.14:
             ops.append(["setConf", bits(conf)])
         elif t < 0.24:
@@ -239,7 +259,7 @@ def gen_history(rng, quick=True, min_ops=3, max_ops=25):
         elif t < 0.83:
             ops.append(["recalc"])
         elif t < 0.88:
-            ops.append(["setGlobal", rng.choice([30, 60, 120])])
+            ops.append(["setGlobal", rng.choice([30, 60, 120, 45, 75])])
         elif t < 0.91:
             ops.append(["read"])
         elif t < 0.94:
@@ -248,11 +268,101 @@ def gen_history(rng, quick=True, min_ops=3, max_ops=25):
             ops.append(rng.choice([["setConf", bits(1.5)], ["setConf", bits(-0.1)], ["setSize", -3],
                                    ["setRange", bits(2.0), bits(1.0)],
                                    ["useCustom", bits(1.0), bits(-0.5)], ["useMode", bits(1.5)]]))
+    for i in range(len(ops) - 1):
+        # the operation before a picture is often not followed by a read of the harness, so that the
+        # picture is looked at while nothing is buffered; so are other operations now and then
+        nxt = ops[i + 1][0]
+        if ops[i][0] not in ("read", "samples", "print") and \
+                rng.random() < (0.6 if nxt in ("display", "displayQ") else 0.12):
+            ops[i] = ["quiet", ops[i]]
     return {"shape": shape, "shape_seed": rng.randrange(2 ** 32), "global": rng.choice([50, 100, 400]),
             "method": rng.choice(["global", "value"]), "npseed": rng.randrange(2 ** 32), "ops": ops}
 
 
-def apply_op(q, d, op, last_samples):
+BYSTANDERS = M.BYSTANDERS
+Bystanders = M.Bystanders
+DISPLAY_BINS = [100, 100, 20, 10, 30, 50, 7, 250, 99, 101]
+
+
+def gen_display(rng, force_nondefault=False):
+    """d.mc.show_histogram: default / other bin count (positional or keyword), with or without the
+    display-only `range=` window (quantiles of the current samples, resolved when executed)"""
+    bins = rng.choice(DISPLAY_BINS)
+    window = rng.random() < 0.4
+    if force_nondefault and bins == 100 and not window:
+        if rng.random() < 0.5:
+            bins = rng.choice([20, 10, 30, 7, 250])
+        else:
+            window = True
+    form = rng.choice(["positional", "keyword"]) if bins != 100 else \
+        rng.choice(["default", "default", "keyword", "positional"])
+    if window:
+        a, b = sorted([rng.uniform(0, 0.6), rng.uniform(0.4, 1)])
+        if rng.random() < 0.3:
+            a, b = rng.uniform(0.2, 0.45), rng.uniform(0.55, 0.8)
+        return ["displayQ", bins, a, b, form]
+    return ["display", bins, form]
+
+
+def gen_display_history(rng, quick=True):
+    """deliberate scenario: a picture is looked at WHILE NOTHING IS BUFFERED for the strategy in
+    force -- before the first read, and right after every kind of change that drops the buffered
+    result (confidence, range, sample size, recalculation, strategy round trip) -- with a bin count
+    other than 100 and / or a display window; the read after it must still be the strategy's function
+    of the retrievable samples (100 bins over all of them for the mode strategy)"""
+    h = gen_history(rng, quick, 0, 0)
+    ops = []
+    if rng.random() < 0.5:
+        ops.append(["setSize", rng.choice([50, 200, 1000])])
+    mode = rng.random() < 0.75
+    conf = rng.choice([0.5, 0.6, 0.68, 0.9, 0.95])
+    ops.append(["useMode", bits(conf)] if mode else ["useMean"])
+    ops.append(gen_display(rng, True))
+    for _ in range(rng.randint(2, 5)):
+        k = rng.choice(["setConf", "setRangeQ", "setRange", "setSize", "recalc", "roundtrip", "none",
+                        "useMode", "setGlobal-recalc"])
+        if k == "setConf":
+            ops.append(["setConf", bits(rng.choice([0.5, 0.68, 0.9, 0.95, 0.3]))])
+        elif k == "setRangeQ":
+            ops.append(["setRangeQ", rng.uniform(0, 0.3), rng.uniform(0.7, 1)])
+        elif k == "setRange":
+            ops.append(["setRange"])
+        elif k == "setSize":
+            ops.append(["setSize", rng.choice([50, 200, 1000, 0])])
+        elif k == "recalc":
+            ops.append(["recalc"])
+        elif k == "roundtrip":
+            ops += [["useMean"], ["useMode"]] if mode else [["useMode"], ["useMean"]]
+        elif k == "useMode":
+            ops.append(["useMode", bits(rng.choice([0.5, 0.8, 0.99]))])
+            mode = True
+        elif k == "setGlobal-recalc":
+            ops += [["setGlobal", rng.choice([30, 60, 120])], ["recalc"]]
+        ops.append(gen_display(rng, True))
+    h["ops"] = [o if o[0] in ("display", "displayQ") else ["quiet", o] for o in ops]
+    h["scenario"] = "display-while-unbuffered"
+    return h
+
+
+def gen_bystander_history(rng, quick=True):
+    """deliberate scenario: a non-default global sample size, something done to OTHER objects that
+    draws its own simulations under its own (temporary) sample size, then this quantity is simulated
+    again: the new simulation has the configured size"""
+    h = gen_history(rng, quick, 0, 0)
+    ops = []
+    if rng.random() < 0.4:
+        ops.append(["setGlobal", rng.choice([30, 60, 120])])
+    for _ in range(rng.randint(1, 3)):
+        ops.append(["bystander", rng.choice(BYSTANDERS)])
+        ops.append(rng.choice([["recalc"], ["setSize", 0], ["read"], ["setGlobal", rng.choice([30, 60, 120])],
+                               ["recalc"]]))
+    ops.append(["recalc"])
+    h["ops"] = ops
+    h["scenario"] = "bystander"
+    return h
+
+
+def apply_op(q, d, op, last_samples, cap=None, by=None):
     """returns the concrete op that was executed (quantile ranges resolved)"""
     t = op[0]
     if t == "setSize":
@@ -278,22 +388,62 @@ def apply_op(q, d, op, last_samples):
     elif t == "recalc":
         d.recalculate()
     elif t == "setGlobal":
-        q.set_monte_carlo_sample_size(op[1])
+        M.set_global(q, op[1])
     elif t == "read":
         _ = d.value, d.error
     elif t == "samples":
         d.mc.samples()
+    elif t == "display":
+        import matplotlib.pyplot as plt
+        bins, form = op[1], op[-1]
+        kw = {"range": (unbits(op[2]), unbits(op[3]))} if len(op) >= 5 else {}
+        try:
+            if form == "default":
+                d.mc.show_histogram(**kw)
+            elif form == "keyword":
+                d.mc.show_histogram(bins=bins, **kw)
+            else:
+                d.mc.show_histogram(bins, **kw)
+        except Exception as e:  # noqa: BLE001
+            # whether a picture can be drawn is not C16's subject; what the quantity reports
+            # afterwards is (judged by the reads that follow)
+            return "display raised {}: {}".format(type(e).__name__, e)
+        finally:
+            plt.close("all")
+    elif t == "print":
+        try:
+            _ = {"str": str, "repr": repr, "format": "{}".format}[op[1]](d)
+        except Exception as e:  # noqa: BLE001
+            # the printer cannot format a pair that is not a number (every sample outside the
+            # configured range: mean of nothing) -- how numbers are printed is C09's subject; what the
+            # quantity reports afterwards is judged by the reads that follow
+            return "print raised {}: {}".format(type(e).__name__, e)
+    elif t == "bystander":
+        if cap is not None:
+            cap.paused = True
+        try:
+            by.run(op[1])
+        finally:
+            if cap is not None:
+                cap.paused = False
     else:
         raise KeyError(t)
+    return None
 
 
 def resolve(op, last_samples):
-    if op[0] != "setRangeQ":
+    if op[0] not in ("setRangeQ", "displayQ"):
         return op
     s = last_samples
+    a, b = (op[1], op[2]) if op[0] == "setRangeQ" else (op[2], op[3])
     if s is None or len(s) < 4:
-        return ["setRange", bits(-1.0), bits(1.0)]
-    lo, hi = float(np.quantile(s, op[1])), float(np.quantile(s, op[2]))
+        lo, hi = -1.0, 1.0
+    else:
+        lo, hi = float(np.quantile(s, a)), float(np.quantile(s, b))
+    if op[0] == "displayQ":
+        if not lo < hi:
+            hi = lo + 1.0
+        return ["display", op[1], bits(lo), bits(hi), op[4]]
     return ["setRange", bits(lo), bits(hi)]
 
 
@@ -311,8 +461,19 @@ def batches(calls, nsrc):
     return out
 
 
-def run_history(q, h):
-    """execute one history on the real library; returns the executed trace"""
+def run_history(q, h, want_order=None):
+    """execute one history on the real library; returns the executed trace.  Which row of the
+    offsets the library hands to which source follows the iteration order of a set of random UUIDs
+    and so differs from process to process: a replay re-executes the history (new measurement objects
+    each time) until the recorded order comes up again"""
+    for _ in range(40):
+        tr = _run_history_once(q, h)
+        if not want_order or tr.get("order") == want_order:
+            break
+    return tr
+
+
+def _run_history_once(q, h):
     M.reset(q, h["global"])
     np.random.seed(h["npseed"])
     srng = random.Random(h["shape_seed"])
@@ -321,7 +482,8 @@ def run_history(q, h):
         warnings.simplefilter("ignore")
         d, meas, desc, everywhere = M.shaped_formula(q, h["shape"], srng)
         tr["desc"], tr["everywhere"] = desc, everywhere
-        nsrc = len(M.source_order(q, d, meas))
+        tr["order"] = M.source_order(q, d, meas)
+        nsrc = len(tr["order"])
         tr["nsrc"] = nsrc
         if h["method"] == "global":
             q.set_error_method(q.ErrorMethod.MONTE_CARLO)
@@ -333,13 +495,21 @@ def run_history(q, h):
                       "strategy": st.strategy, "conf": float(st.confidence),
                       "range_empty": st.xrange == ()}
         last = None
+        by = Bystanders(q, srng)
         for op in h["ops"]:
-            cop = resolve(op, last)
+            # ["quiet", op]: executed WITHOUT the harness looking at the quantity afterwards (its own
+            # reads would buffer a result and hide the states in which nothing is buffered)
+            quiet = op[0] == "quiet"
+            cop = resolve(op[1] if quiet else op, last)
             rec = {"op": cop}
+            if quiet:
+                rec["quiet"] = True
             c0 = len(cap.calls)
             try:
-                apply_op(q, d, cop, last)
+                note = apply_op(q, d, cop, last, cap, by)
                 rec["out"] = "ok"
+                if note:
+                    rec["note"] = note
             except ValueError as e:
                 rec["out"] = "rejected"
                 rec["msg"] = str(e)
@@ -347,6 +517,9 @@ def run_history(q, h):
                 rec["crash"] = "{}: {}".format(type(e).__name__, e)
                 tr["steps"].append(rec)
                 break
+            if quiet:
+                tr["steps"].append(rec)
+                continue
             try:
                 c1 = len(cap.calls)
                 s = d.mc.samples()
@@ -386,11 +559,21 @@ def model_line(h, tr):
     """op / samples / read / read per executed step; simulations indexed by draw-batch number"""
     nsrc = tr["nsrc"]
     ops, sims = [], {}
+
+    def mop(op):
+        # printing the quantity reads value and uncertainty; a picture keeps only bins and window
+        if op[0] == "print":
+            return ["read"]
+        if op[0] == "display":
+            return op[:4] if len(op) >= 5 else op[:2]
+        if op[0] == "bystander":
+            return ["bystander"]
+        return op
     for rec in tr["steps"]:
         if "samples" not in rec:
-            ops.append(rec["op"])
+            ops.append(mop(rec["op"]))
             continue
-        ops += [rec["op"], ["samples"], ["read"], ["read"]]
+        ops += [mop(rec["op"]), ["samples"], ["read"], ["read"]]
         sid = rec["ncalls"][2] // nsrc - 1
         if str(sid) not in sims:
             s = rec["samples"]
@@ -405,19 +588,23 @@ def model_line(h, tr):
 
 
 def hist_describe(h, tr, upto=None):
-    ops = [r["op"] for r in tr["steps"]][: (upto + 1) if upto is not None else None]
+    recs = tr["steps"][: (upto + 1) if upto is not None else None]
 
     def show(o):
         if o[0] in ("setConf", "useMode", "useCustom", "setRange") and len(o) > 1:
             return [o[0]] + [unbits(x) for x in o[1:]]
+        if o[0] == "display":
+            return ["show_histogram", "bins={} ({})".format(o[1], o[-1])] + (
+                ["range=({!r}, {!r})".format(unbits(o[2]), unbits(o[3]))] if len(o) >= 5 else [])
         return o
     return "{} [global size {}, method {}, numpy seed {}]: {}".format(
-        tr.get("desc", h["shape"]), h["global"], h["method"], h["npseed"], [show(o) for o in ops])
+        tr.get("desc", h["shape"]), h["global"], h["method"], h["npseed"],
+        [["not-read-after", show(r["op"])] if r.get("quiet") else show(r["op"]) for r in recs])
 
 
 def judge_history(h, tr, m, failures, dist):
     """compare the executed trace with the model run; returns non-trivial flag"""
-    base = {"case": {"history": h}}
+    base = {"case": {"history": h}, "order": tr.get("order")}
     if "fail" in m:
         failures.append(dict(base, signature="model-error", kind="disagreement", what=m["fail"],
                              input=hist_describe(h, tr)))
@@ -437,13 +624,46 @@ def judge_history(h, tr, m, failures, dist):
         inp = hist_describe(h, tr, si)
         b = dict(base, input=inp, step=si)
         dist["op:" + opname] += 1
+        if opname == "setGlobal":
+            dist["setGlobal:through-the-" + M.global_route(rec["op"][1])] += 1
         if "crash" in rec:
             failures.append(dict(b, signature="c16:history:crash:{}:{}".format(
                 rec["crash"].split(":")[0], opname), what="operation or the read after it raised "
                 + rec["crash"], clause="every strategy reports a function of the sample set"))
             return nontrivial
+        if rec.get("quiet"):
+            mop = steps[mi]
+            mi += 1
+            dist["quiet-op (no read by the harness after it)"] += 1
+            mo = mop["out"] if mop["out"] in ("ok", "rejected") else "ok"
+            if rec["out"] != mo:
+                failures.append(dict(b, signature="c16:outcome:" + opname, what="operation {} by the "
+                                     "library, {} by the model".format(rec["out"], mo),
+                                     impl=rec["out"], expected=mo))
+                return nontrivial
+            continue
         mop, msamp, mread, mread2 = steps[mi:mi + 4]
         mi += 4
+        if opname == "display":
+            o = rec["op"]
+            dist["display:bins-{}".format("100" if o[1] == 100 else "other")] += 1
+            dist["display:call-form-" + o[-1]] += 1
+            if len(o) >= 5:
+                dist["display:with-range-window"] += 1
+            if rec.get("note"):
+                dist["display:raised"] += 1
+            stt = mop["st"]["strategy"]
+            if not {"mean": mop["st"]["cMean"], "mode": mop["st"]["cMode"],
+                    "custom": mop["st"]["cCustom"]}[stt]:
+                dist["display:{}-strategy-nothing-buffered".format(stt)] += 1
+                if o[1] != 100 or len(o) >= 5:
+                    dist["display:{}-strategy-nothing-buffered-bins-or-window-not-default".format(stt)] += 1
+        elif opname == "print" and rec.get("note"):
+            dist["print:raised (pair not a number)"] += 1
+        elif opname == "bystander":
+            dist["bystander:" + rec["op"][1]] += 1
+            if mop["st"]["size"] == 0:
+                dist["bystander:while-following-the-global-size"] += 1
         # 1. accepted / rejected
         mo = mop["out"] if mop["out"] in ("ok", "rejected") else "ok"
         if rec["out"] != mo:
@@ -563,10 +783,10 @@ def check_init(ctx, tr, failures):
                          "case": {"init": True}})
 
 
-def run_histories(ctx, n, hists=None, ref=False):
+def run_histories(ctx, n, hists=None, ref=False, orders=None):
     import qexpy as q
     hists = hists or [gen_history(ctx.rng, ctx.quick, 3, 25 if ctx.quick else 60) for _ in range(n)]
-    traces = [run_history(q, h) for h in hists]
+    traces = [run_history(q, h, (orders or {}).get(i)) for i, h in enumerate(hists)]
     mods = ctx.model([model_line(h, t) for h, t in zip(hists, traces)], ref=ref)
     failures, nontrivial = [], set()
     dist = collections.Counter()
@@ -575,6 +795,8 @@ def run_histories(ctx, n, hists=None, ref=False):
         check_init(ctx, traces[0], failures)
     for h, t, m in zip(hists, traces, mods):
         dist["shape:" + h["shape"]] += 1
+        if h.get("scenario"):
+            dist["scenario:" + h["scenario"]] += 1
         dist["history-length:{}".format(min(60, 5 * (len(h["ops"]) // 5)))] += 1
         if judge_history(h, t, m, failures, dist):
             nontrivial.add(canon_hash(h))
@@ -589,6 +811,15 @@ def run_histories(ctx, n, hists=None, ref=False):
 def correspond(ctx):
     rw = run_walks(ctx, ctx.n(4000, 150000))
     rh = run_histories(ctx, ctx.n(150, 3000))
+    # deliberate scenarios (several per run): pictures while nothing is buffered; bystanders
+    forced = [gen_display_history(ctx.rng, ctx.quick) for _ in range(ctx.n(30, 300))] + \
+             [gen_bystander_history(ctx.rng, ctx.quick) for _ in range(ctx.n(16, 120))]
+    rf = run_histories(ctx, 0, hists=forced)
+    rh["evaluations"] += rf["evaluations"]
+    rh["nontrivial"] |= rf["nontrivial"]
+    rh["failures"] += rf["failures"]
+    for k, v in rf["distribution"].items():
+        rh["distribution"][k] = rh["distribution"].get(k, 0) + v
     dist = dict(rw["distribution"])
     dist.update(rh["distribution"])
     dist["unit-level walk cases"] = rw["evaluations"]
@@ -612,7 +843,10 @@ def search(ctx, broken):
     out["strategy"].append("brute-force least-k definition on {} synthetic histograms".format(
         r["evaluations"]))
     try:
-        r = run_histories(ctx, ctx.n(40, 400), ref=True)
+        hs = [gen_history(ctx.rng, ctx.quick, 3, 25) for _ in range(ctx.n(40, 400))] + \
+             [gen_display_history(ctx.rng, ctx.quick) for _ in range(ctx.n(20, 100))] + \
+             [gen_bystander_history(ctx.rng, ctx.quick) for _ in range(ctx.n(10, 50))]
+        r = run_histories(ctx, 0, hists=hs, ref=True)
         for f in r["failures"]:
             if f.get("signature", "").startswith("c16") and f.get("kind") != "disagreement":
                 f["oracle"] = "independent"
@@ -633,8 +867,19 @@ def replay(ctx, rp):
         fs = r["failures"] + r2["failures"]
         return {"fails": bool(fs), "failures": fs, "impl": walk_impl(c["walk"])[0]}
     if "history" in c:
-        r = run_histories(ctx, 0, hists=[c["history"]])
-        return {"fails": bool(r["failures"]), "failures": r["failures"]}
+        # a model regenerated from a changed tree is not known to be correct: the proved reference
+        # tables are used then
+        # observed until the recorded row order of the sources has come up again (see run_history)
+        # and, with more than one source, at least 4 times; fails when any observation fails
+        use_ref = ctx.tables_changed(SECTIONS)
+        target = f.get("order") or []
+        two = c["history"].get("shape") in ("sum", "prod")        # the shapes with two sources
+        for tries in range(4 if two else 1):
+            r = run_histories(ctx, 0, hists=[c["history"]], ref=use_ref,
+                              orders={0: target if tries == 0 else None})
+            if r["failures"]:
+                break
+        return {"fails": bool(r["failures"]), "failures": r["failures"], "observations": tries + 1}
     if c.get("init"):
         r = run_histories(ctx, 0, hists=[gen_history(random.Random(0))])
         fs = [x for x in r["failures"] if x["signature"] == "c16:init"]
